@@ -15,7 +15,8 @@ Order of the Rust:
 `Doc::is_visible_to` (`radicle/src/identity/doc.rs`): public, or on the allow list, or a delegate.
 
 Parameters (opaque, supplied per case / quantified in the theorems): `ridOf` (see `Pktline`), the policy
-store lookup, the storage lookup, and `upload`, the bytes `git upload-pack` writes for a request.
+store lookup, the storage lookup (the document read through `refs/rad/id`, and the canonical one), and
+`upload`, the bytes `git upload-pack` writes for a request.
 
 Import-free apart from `Model/Pktline`.
 -/
@@ -79,10 +80,20 @@ structure Env (Nid Rid : Type) where
   ridOf : Bytes → Option Rid
   /-- `policies.seed_policy(rid)`: `none` = store error; the default policy is already folded in -/
   policyOf : Rid → Option Policy
-  /-- `storage.repository(rid)?.identity_doc()?`: `none` = error -/
+  /-- `storage.repository(rid)?.identity_doc()?`: the document the WORKER reads, i.e. the one at the cached
+  canonical identity head `refs/rad/id`; `none` = error -/
   docOf : Rid → Option (Doc Nid)
+  /-- the CURRENT identity document of the repository: the one at the canonical head computed from the
+  identity COB in storage (`Identity::load`), whatever `refs/rad/id` says -/
+  docCanonical : Rid → Option (Doc Nid)
   /-- everything `upload_pack` writes to the stream for this request -/
   upload : GitRequest Rid → Bytes
+
+/-- The cached head is fresh: `refs/rad/id` points at the canonical identity head. The code establishes this
+with `repo.set_identity_head()` after every successful fetch (`worker/fetch.rs`, `Handle::fetch`) and after
+every local identity update; the worker itself never recomputes it. It is an explicit input of the model:
+`is_authorized` decides on `docOf`, the property speaks about `docCanonical`. -/
+def Env.HeadFresh (env : Env Nid Rid) : Prop := ∀ rid, env.docOf rid = env.docCanonical rid
 
 /-- `Worker::is_authorized` -/
 def isAuthorized (env : Env Nid Rid) (remote : Nid) (rid : Rid) : Except Refusal Unit :=
